@@ -23,6 +23,9 @@ type WOp struct {
 	K    int    `json:"key"`           // index into the key pool
 	V    int    `json:"val,omitempty"` // value class
 	Exp  string `json:"exp,omitempty"` // expected-revision class: ok stale other zero same future far max half
+	// Lease is passed through in the request (the etcd API forwards the lease id of a put); it must have no effect:
+	// expiry is governed by the key being an Event and the configured TTL only
+	Lease int64 `json:"lease,omitempty"`
 }
 
 // ExpClasses are the expected-revision classes of guarded writes
@@ -68,6 +71,9 @@ type SeqOpts struct {
 	Keys      []string
 	Backend   BackendOpts
 	SplitKeys [][]byte
+	// MetricsOutside puts pkg/storage/metrics between the backend and the shim (production order with
+	// --enable-storage-metrics: the backend talks to the wrapper, faults happen below it)
+	MetricsOutside bool
 }
 
 // NewSeqEnv opens an engine and a backend over it
@@ -80,6 +86,9 @@ func NewSeqEnv(o SeqOpts) (*SeqEnv, error) {
 	if o.UseShim {
 		e.Shim = NewShim(eng.KV, strings.Contains(o.Engine, EngMem))
 		e.KV = e.Shim
+		if o.MetricsOutside {
+			e.KV = imetricsNew(e.Shim)
+		}
 	}
 	e.B = NewTestBackend(e.KV, o.Backend)
 	e.Init = o.Backend.Init
@@ -199,7 +208,7 @@ func (e *SeqEnv) DoWrite(op WOp) (*WriteRes, error) {
 	switch op.Kind {
 	case "create":
 		var r *proto.CreateResponse
-		r, err = e.B.Create(e.Ctx, &proto.CreateRequest{Key: []byte(key), Value: val})
+		r, err = e.B.Create(e.Ctx, &proto.CreateRequest{Key: []byte(key), Value: val, Lease: op.Lease})
 		if r != nil {
 			hdr, succeeded = r.Header, r.Succeeded
 		}
@@ -210,7 +219,7 @@ func (e *SeqEnv) DoWrite(op WOp) (*WriteRes, error) {
 	case "update":
 		exp, future = e.ResolveExp(op, key)
 		var r *proto.UpdateResponse
-		r, err = e.B.Update(e.Ctx, &proto.UpdateRequest{Kv: &proto.KeyValue{Key: []byte(key), Value: val, Revision: exp}})
+		r, err = e.B.Update(e.Ctx, &proto.UpdateRequest{Kv: &proto.KeyValue{Key: []byte(key), Value: val, Revision: exp}, Lease: op.Lease})
 		if r != nil {
 			hdr, succeeded, kv = r.Header, r.Succeeded, r.Kv
 		}
